@@ -246,6 +246,13 @@ func genXport(r *rng, seed uint64, focus, arm string) *plan.Plan {
 					// an error, not some message
 					t.Acts = []plan.UpAction{{Kind: "truncate_udp", DelayUs: r.i64(50, 5000), Arg: r.intn(4)}, {Kind: []string{"fin", "rst", "silent", "half_frame"}[r.intn(4)], DelayUs: r.i64(50, 20_000), Arg: r.intn(40)}}
 				}
+			case 7:
+				if (kind == "tcp+pipeline" || kind == "tls+pipeline") && xp.IdleMs > 0 && xp.IdleMs <= 300 {
+					// the reply stalls inside its frame for longer than the idle time-out
+					act.Kind = "stall_frame"
+					act.Arg = xp.IdleMs + r.rng(50, 300)
+					t.Ans.PadTo, t.Ans.NAn = 0, 1
+				}
 			case 6:
 				if kind == "udp" {
 					// truncated over UDP, answered over TCP: the caller gets the TCP
